@@ -127,7 +127,7 @@ PROPS['C06'] = dict(
     rule='choice tape -> <= 300 ops on two strings (heap or embedded objects): catc/catn/cats/cat and their non-terminating "_" forms with any byte values (NUL, >= 0x80) and lengths '
          'chosen to land 2/1/0 short of and 1 past the current capacity, catf from 11 typed templates (%s with a string sized to fill the spare room exactly / one more, %.*s, %d, %5u, %x, %c, '
          '%%, %g, mixed) compared with snprintf on the same arguments, a_utf_catc over all six encoding lengths, getc/getn (with/without destination, counts up to SIZE_MAX), trim/ltrim/rtrim '
-         'with default white space and explicit sets (incl. NUL, high bytes, "every byte of the content"), setn/setn_ within capacity, setm (incl. reservations of 200..65536 bytes), index accessors at/at_/of, a_utf_len against a_utf_length, a_str_cmp_/cmpn on prefixes of the other string and of the string's own storage, exit (ownership hand-over, block checked and released), '
+         'with default white space and explicit sets (incl. NUL, high bytes, "every byte of the content"), setn/setn_ within capacity, setm (incl. reservations of 200..65536 bytes), index accessors at/at_/of, a_utf_len against a_utf_length, a_str_cmp_/cmpn on prefixes of the other string and of the storage of the string itself, exit (ownership hand-over, block checked and released), '
          'swap, dtor+ctor, cmp/cmpn/cmps; after every op len<=mem, content, and the NUL after the content (after terminating variants) are checked against std::string under ASan with an '
          'allocator ledger. non-trivial = history with a reallocation of a non-empty string, a formatted append that exactly fills the spare capacity, or a trim that empties a string of >= 2 bytes; '
          'distinct = hash of the decoded op bytes',
